@@ -45,6 +45,9 @@ type result struct {
 // builders: system name -> constructs the System (procs added, not started) for a configuration
 var builders = map[string]func(cfg map[string]int) (*steplib.System, error){}
 
+// envs: system name -> environment actions (spec processes that are not archetypes) for a configuration
+var envs = map[string]func(cfg map[string]int) []steplib.EnvAction{}
+
 func runCase(k kase) (res result) {
 	res.ID, res.System = k.ID, k.System
 	res.Steps = []steplib.Obs{}
@@ -74,8 +77,14 @@ func runCase(k kase) (res result) {
 	for _, n := range sys.Procs() {
 		res.PCs0[n] = sys.PC(n)
 	}
+	var env []steplib.EnvAction
+	if mk, ok := envs[k.System]; ok {
+		env = mk(k.Cfg)
+	}
 	if k.Auto != nil {
-		res.Steps = steplib.NewWalker(sys, k.Auto.Seed).Walk(k.Auto.Steps)
+		w := steplib.NewWalker(sys, k.Auto.Seed)
+		w.Env = env
+		res.Steps = w.Walk(k.Auto.Steps)
 		return
 	}
 	for _, ev := range k.Sched {
@@ -86,7 +95,17 @@ func runCase(k kase) (res result) {
 				ch = append(ch, uint64(x.(float64)))
 			}
 		}
-		ob := sys.Step(name, ch)
+		var ob steplib.Obs
+		isEnv := false
+		for _, e := range env {
+			if e.Name == name {
+				ob = e.Run(sys, ch)
+				isEnv = true
+			}
+		}
+		if !isEnv {
+			ob = sys.Step(name, ch)
+		}
 		res.Steps = append(res.Steps, ob)
 		if len(ob.Outcome) >= 5 && ob.Outcome[:5] == "error" || ob.Outcome == "hang" {
 			break
